@@ -60,6 +60,8 @@ class Scheduler:
         # Machines promised to observations admitted in the current timestep
         # that the cluster has not yet taken out of its available pool
         self.pending_ingest = 0
+        # Observations that have been admitted and are still ingesting
+        self.ingesting = []
         self.observation_queue = []
         self.schedule_status = ScheduleStatus.ONTIME
         self.events = []
@@ -166,7 +168,7 @@ class Scheduler:
         """
 
         buffer_capacity = False
-        if self.buffer.check_buffer_capacity(observation):
+        if self.buffer.check_buffer_capacity(observation, self.ingesting):
             LOGGER.debug("Buffer has enough capacity for %s", observation.name)
             buffer_capacity = True
 
@@ -180,6 +182,7 @@ class Scheduler:
                 if buffer_capacity:
                     self.provision_ingest += pipeline_demand
                     self.pending_ingest += pipeline_demand
+                    self.ingesting.append(observation)
                 LOGGER.debug(
                     "Cluster is able to process ingest for observation %s",
                     observation.name)
@@ -244,6 +247,8 @@ class Scheduler:
 
         if RunStatus.FINISHED:
             self.provision_ingest -= pipeline_demand
+            if observation in self.ingesting:
+                self.ingesting.remove(observation)
             self.cluster.clean_up_ingest()
 
     def print_state(self):
